@@ -1,11 +1,15 @@
 import BornoModel.Lemmas.ParseFits
 import BornoModel.Lemmas.ParseElse
+import BornoModel.Lemmas.ParseComplete
 /-! # C01 — accepted programs get the syntax tree the documented grammar prescribes
 
-Three layers: (1) the shape equations of the descent; (2) `fits`: every tree the parser returns
+Four layers: (1) the shape equations of the descent; (2) `fits`: every tree the parser returns
 obeys the ladder, for every token list and fuel (so precedence and associativity are facts about
-the *tree*, not about one parsing step); (3) `elseOk`: every `else` in a returned tree sits on the
-nearest `if`.  That the accepted text is exactly the rendering of the returned tree is C08. -/
+the *tree*, not about one parsing step); (3) completeness and uniqueness: every ladder-fitting
+tree is what the parser returns for its own rendering, so two fitting trees with one rendering
+are one tree, and the fully parenthesised rendering of *any* tree parses back to it;
+(4) `elseOk`: every `else` in a returned tree sits on the nearest `if`.
+That the accepted text is exactly the rendering of the returned tree is C08. -/
 namespace Borno.Props.C01
 open Borno Parser Grammar
 
@@ -174,7 +178,44 @@ example :
     fits 0 (.binary (.binary (n 1) .PLUS 1 (.binary (n 2) .STAR 1 (n 3))) .MINUS 1 (n 4)) = true ∧
     fits 0 (.binary (n 1) .PLUS 1 (.binary (n 2) .STAR 1 (.binary (n 3) .MINUS 1 (n 4)))) = false := by decide
 
-/-! ## layer 3: the dangling else -/
+/-! ## layer 3: completeness, uniqueness, explicit parentheses -/
+
+/-- every tree that fits the ladder is what `expression` returns for its own rendering (followed by
+    any token that cannot continue an expression), up to line fields, for all large enough fuel -/
+theorem parse_complete (e : Expr) (hf : fits 0 e = true) (t : Token) (rest : List Token) (ht : followA t.tt = true) :
+    ∃ f0, ∀ f, f0 ≤ f → assignment f (toks e ++ t :: rest) = .ok (eraseE e) (t :: rest) :=
+  assignment_complete e hf t rest ht
+
+/-- the published ladder determines the tree: two fitting trees with the same rendering are equal
+    up to line fields -/
+theorem tree_unique (e1 e2 : Expr) (h1 : fits 0 e1 = true) (h2 : fits 0 e2 = true) (h : rExpr e1 = rExpr e2) :
+    eraseE e1 = eraseE e2 := rendering_injective e1 e2 h1 h2 h
+
+/-- hence what the parser returns is *the* tree of the ladder for the tokens it consumed: any
+    fitting tree with the same rendering as the returned one is the returned one -/
+theorem parsed_is_the_unique_tree (f : Nat) (ts : List Token) (e : Expr) (r : List Token)
+    (h : assignment f ts = .ok e r) (e' : Expr) (hf : fits 0 e' = true) (hr : rExpr e' = rExpr e) :
+    eraseE e' = eraseE e := rendering_injective e' e hf (parsed_expression_fits f ts e r h) hr
+
+/-- writing any syntax tree out with explicit parentheses and parsing that text gives back the
+    same tree: the parser returns the parenthesised tree, whose `Grouping`-free form is the
+    original's -/
+theorem paren_roundtrip (e : Expr) (h : opsOk e = true) (t : Token) (rest : List Token) (ht : followA t.tt = true) :
+    (∃ f0, ∀ f, f0 ≤ f → assignment f (toks (paren e) ++ t :: rest) = .ok (eraseE (paren e)) (t :: rest)) ∧
+    strip (paren e) = strip e := Parser.paren_roundtrip e h t rest ht
+
+/-- non-vacuity: `;`, `)`, `,`, EOF may follow an expression; `a = 1 + 2 * -b(3)[0].p` (as a tree) fits, and so does any
+    well-formed tree once parenthesised — even `(1 + 2) * 3` written as a product of a sum -/
+example :
+    followA .SEMICOLON = true ∧ followA .RIGHT_PAREN = true ∧ followA .COMMA = true ∧ followA .EOF = true ∧ followA .PLUS = false ∧
+    (let n (k : Nat) : Expr := .literal .nil k
+     fits 0 (.assign ['a'] 1 (.binary (n 1) .PLUS 1 (.binary (n 2) .STAR 1
+        (.unary .MINUS 1 (.propAccess (.arrayAccess (.call (.ident ['b'] 1) 1 [n 3]) (n 0) 1) ['p'] 1)))) 1) = true ∧
+     fits 0 (.binary (.binary (n 1) .PLUS 1 (n 2)) .STAR 1 (n 3)) = false ∧
+     opsOk (.binary (.binary (n 1) .PLUS 1 (n 2)) .STAR 1 (n 3)) = true ∧
+     fits 0 (paren (.binary (.binary (n 1) .PLUS 1 (n 2)) .STAR 1 (n 3))) = true) := by decide
+
+/-! ## layer 4: the dangling else -/
 
 /-- in every tree `Parse` returns (with or without lenient diagnostics), the then-branch of each
     `if … else` is closed: the `else` could not have belonged to an inner `if` -/
